@@ -22,7 +22,7 @@ import (
 var blockMutations = []string{
 	"height+1", "height-1", "foreign-parent", "time-early", "time-future", "wrong-slot-signer", "garbage-signature", "no-signature",
 	"merkle-root", "version", "coinbase-extra-output", "coinbase-nonzero-offepoch", "reward+1", "reward-1", "reward-other-program", "reward-missing-payee",
-	"tx-unbalanced", "tx-bad-signature", "tx-wrong-key", "spend-missing", "double-spend-in-block", "double-spend-cross-block", "immature-coinbase", "locked-vote",
+	"tx-unbalanced", "tx-bad-signature", "tx-wrong-key", "spend-missing", "double-spend-in-block", "double-spend-cross-block", "immature-coinbase", "locked-vote", "fork-branch-double-spend",
 }
 
 // ledgerLevel mutants pass block validation on arrival (their transactions are
@@ -468,6 +468,26 @@ func execC13(t *testing.T, plan any, r *simkit.Run) {
 				par := tip
 				for k := 0; k < m.Back && par.Parent != nil; k++ {
 					par = par.Parent
+				}
+				if m.Kind == "fork-branch-double-spend" {
+					// a VALID sibling branch block that spends an output, then (below) a child of it that
+					// spends the same output again: when the branch overtakes the victim's chain both are
+					// attached in one reorganisation
+					if par.Parent == nil {
+						continue
+					}
+					base := par.Parent
+					ftxs := w.MakeTxs(base, []TxOp{{Kind: "pay", A: m.A}, {Kind: "pay", A: m.A + 3, B: 2}}, 8100+m.A)
+					fres := w.Propose(base.Hash, 1+m.A%2, ftxs, nil)
+					if fres.Err != nil || fres.Block == nil || fres.FeedErr != nil || len(fres.Block.Transactions) < 2 {
+						r.Count("mutation.not_constructible", 1)
+						continue
+					}
+					w.Admit(fres)
+					victim.Process(fres.Block)
+					r.Tracef("deliver valid fork block %s on %s", w.name(fres.Block.Hash()), w.name(base.Hash))
+					par = w.Tree.Nodes[fres.Block.Hash()]
+					m.Kind = "double-spend-cross-block"
 				}
 				blk, expectModelInvalid, desc := w.Mutate(m, par.Hash)
 				if blk == nil {
